@@ -197,7 +197,11 @@ def run_prefix(repo, fi: FuncInfo, points: str, residues: Sequence[ResStub], mod
         raise NotEvaluable("expected (structure, model) parameters")
     env: Dict[str, Any] = {params[0]: StructStub(residues), params[1]: model}
     env.update(record_classes(repo, fi.module.name))
-    ev = BlockEval(repo, fi.module.name, env, max_steps=20000)
+    # module-level helpers of the analysed module as callables whose *ast* is evaluated in the same world (sa/world.py)
+    from sa import world as W
+
+    world = W.build(repo, fi.module.name, functions=True, extra=record_classes(repo, fi.module.name))
+    ev = BlockEval(repo, fi.module.name, env, world=world, max_steps=20000)
     try:
         kind, _ = ev.run(prefix_statements(fi, points))
     except Unknown as ex:
